@@ -8,7 +8,7 @@ use margined_common::asset::AssetInfo;
 use crate::{
     contract::OWNER,
     messages::execute_vamm_shutdown,
-    querier::{query_engine_decimals, query_vamm_decimals},
+    querier::{query_engine_decimals, query_vamm_decimals, query_vamm_open},
     state::{read_config, read_vammlist, remove_vamm as remove_amm, save_vamm, Config, VAMM_LIMIT},
 };
 
@@ -77,7 +77,15 @@ pub fn shutdown_all_vamm(deps: DepsMut, env: Env, info: MessageInfo) -> StdResul
     let keys = read_vammlist(deps.as_ref(), VAMM_LIMIT)?;
 
     for vamm in keys.iter() {
-        msgs.push(execute_vamm_shutdown(vamm.clone())?);
+        // a vamm that is already closed would reject the (no-op) request and revert the whole shutdown
+        if query_vamm_open(&deps.as_ref(), vamm.to_string())? {
+            msgs.push(execute_vamm_shutdown(vamm.clone())?);
+        }
+    }
+
+    // mirrors the vamm's own convention for a request that would not change anything
+    if msgs.is_empty() {
+        return Err(StdError::generic_err("unauthorized"));
     }
 
     Ok(Response::default().add_submessages(msgs))
